@@ -38,6 +38,10 @@ TREES = [
     ('box-kw', ['box', [L('1')], [['tag', ints('tuple', 2, 3)]]]),
     ('int', L('7')),
     ('dict3', ['dict', [[L('1'), ints('list', 10)], [L('2'), ints('list', 20)], [L('3'), L('30')]]]),
+    # string leaves long enough to be split over several lines at the default width
+    ('long-str-elem', ['list', [L(repr('lorem ipsum dolor sit amet ' * 4)), L('2')]]),
+    ('long-str-value', ['dict', [[L('1'), L(repr('consectetur adipiscing elit sed ' * 3))], [L('2'), ['list', [L(repr(b'bytes words here ' * 6))]]]]]),
+    ('short-strs', ['list', [L("'a'"), ['tuple', [L("b'b'"), L('3')]]]]),
 ]
 
 
